@@ -25,13 +25,13 @@ func init() {
 		id:    "C17",
 		title: "Output and results are deterministic",
 		explanation: "Decides the structural clause of C17: every `range` over a map in library code has a body whose effects commute " +
-			"(keyed writes into another map, appends into a slice that is totally sorted before any other use, whitelisted min/max reducers, body-local state), " +
+			"(keyed writes into another map, appends into a slice that is totally sorted before any other use, whitelisted integer min/max reducers, body-local state), " +
 			"or is dominated by a len==1 guard; every slice obtained from maps.Keys/Values is totally sorted (sort on the element itself as final tie-break) before an order-dependent use; " +
 			"library code calls no wall-clock, random, pid, environment or address-printing source; " +
 			"and no serialiser or query method writes memory reachable from its receiver or a package-level variable (repeated calls see the same input). " +
 			"It does NOT decide byte equality of outputs as such: that follows only if no other nondeterminism source exists; text/template's sorted map iteration is trusted.",
-		trusted:     []string{"go/types, go/ssa (x/tools v0.29.0)", "text/template ranges over maps in sorted key order (documented)", "sort.Slice/slices.Sort are deterministic functions of their input", "whitelist of commutative reducers: rect.Rect.Extend, funit.Rect16.Extend, funit.Rect.Extend (min/max updates)"},
-		assumptions: []string{"float min/max reducers are treated as commutative (NaN and signed zero ignored)"},
+		trusted:     []string{"go/types, go/ssa (x/tools v0.29.0)", "text/template ranges over maps in sorted key order (documented)", "sort.Slice/slices.Sort are deterministic functions of their input", "whitelist of commutative reducers: funit.Rect16.Extend, funit.Rect.Extend (min/max updates of integers; a floating-point reducer such as rect.Rect.Extend is order-dependent under NaN and is reported)"},
+		assumptions: nil,
 		run:         runC17,
 	})
 }
@@ -85,7 +85,7 @@ func runC17(c *Ctx) {
 		"DET-COLLECT|ctl17.SortKeyFuncPartial", "DET-COLLECT|ctl17.SortKeyCounting",
 		"DET-COLLECT|ctl17.DecoratePartial", "DET-COLLECT|ctl17.DecorateHalf", "DET-COLLECT|ctl17.DecorateForgotten", "DET-COLLECT|ctl17.ImageUnsorted",
 		"DET-COLLECT|ctl17.NamedLessPartial", "DET-COLLECT|ctl17.NamedPeek", "DET-MAPRANGE|ctl17.GuardLast",
-		"DET-COLLECT|ctl17.PassedOrdered"}
+		"DET-COLLECT|ctl17.PassedOrdered", "DET-MAPRANGE|ctl17.FloatMinMax"}
 	for _, w := range want {
 		c.check(fired[w] > 0, "DET-CONTROL", "control", w, token.NoPos, "positive control fired", "the positive control "+w+" was not reported: the rule is broken")
 	}
@@ -842,9 +842,11 @@ func (d *detAnalyzer) singletonGuard(root *ast.BlockStmt, st *ast.RangeStmt) boo
 }
 
 // commutative reducers: methods that fold a value into an accumulator by
-// min/max updates only.
+// min/max updates of integers only.  The floating-point rectangle (geom/rect.Rect.Extend) is not
+// one: with a NaN coordinate every comparison is false and the result depends on the order of the
+// calls — a font or metrics value with such a box was written differently from one call to the
+// next (repaired in /repo; witness wit17).
 var reducers = map[string]bool{
-	"(*seehuhn.de/go/geom/rect.Rect).Extend":          true,
 	"(*seehuhn.de/go/postscript/funit.Rect16).Extend": true,
 	"(*seehuhn.de/go/postscript/funit.Rect).Extend":   true,
 	"(*psa/control/ctl17.box).Extend":                 true,
